@@ -60,7 +60,11 @@ def message_frames(rng, seq=1, text=None, parts=None):
     pieces = [text[a:b] for a, b in zip([0] + cuts, cuts + [len(text)])]
     frames = []
     for i, piece in enumerate(pieces):
-        frames.append(frame(seq + i, piece, final=(i == len(pieces) - 1)))
+        fr = frame(seq + i, piece, final=(i == len(pieces) - 1))
+        if rng.random() < 0.15:
+            # hexadecimal checksum characters are not case sensitive: some instruments send lower case
+            fr = fr[:-4] + fr[-4:-2].lower() + fr[-2:]
+        frames.append(fr)
     return frames, text
 
 
